@@ -1,12 +1,15 @@
 ------------------------------ MODULE ConcSem ------------------------------
 (* Matching rule of Concurrent[...] (C17) over a finite class hierarchy:    *)
 (*   Exception > LookupError > {KeyError, IndexError};  Exception > ValueError *)
+(*   Exception > TwinError  (in the harness a DIFFERENT class whose __name__ *)
+(*   is also "ValueError": classes are told apart by identity, not by name)  *)
 (* A child is <<"P", class>> or a nested failure <<"C", kids>>; a handler   *)
 (* item is <<"P", class>> or a nested specialisation <<"C", items, incl>>.  *)
 EXTENDS Naturals, Sequences, FiniteSets
-Plain == {"Exception", "LookupError", "KeyError", "IndexError", "ValueError"}
+Plain == {"Exception", "LookupError", "KeyError", "IndexError", "ValueError", "TwinError"}
 Parent(c) == CASE c = "KeyError" -> "LookupError" [] c = "IndexError" -> "LookupError"
-               [] c = "LookupError" -> "Exception" [] c = "ValueError" -> "Exception" [] OTHER -> ""
+               [] c = "LookupError" -> "Exception" [] c = "ValueError" -> "Exception"
+               [] c = "TwinError" -> "Exception" [] OTHER -> ""
 RECURSIVE Sub(_, _)
 Sub(c, d) == c = d \/ (Parent(c) # "" /\ Sub(Parent(c), d))       \* issubclass for plain classes
 P(c) == <<"P", c>>             \* a plain class as child type / handler item (uniform tuples for TLC)
